@@ -135,6 +135,11 @@ func readBundle(b []byte) *bundle {
 			bu.LexMeta = append(bu.LexMeta, *r.Metadata)
 		}
 	}
+	// every top-level record through the library's Parse* functions, against the from-the-spec decoder
+	if d := libParseDiff(b); d != "" {
+		bu.Err = "Parse*: " + d
+		return bu
+	}
 	scan := gow.Iterate(bytes.NewReader(b), gow.NextIntoNil, true, nil, 0, mcap.UsingIndex(false))
 	if scan.Panic != "" || scan.Failed() != nil {
 		bu.Err = fmt.Sprintf("scan: %v %s", scan.Failed(), scan.Panic)
